@@ -39,6 +39,8 @@ type c16Case struct {
 	// SecondShutdownMs > 0: Shutdown is called a second time, that long after the first call began (possibly while the
 	// first is still draining): whichever call returns, what "after shutdown returns" promises must hold at that instant
 	SecondShutdownMs int `json:"second_shutdown_after_ms,omitempty"`
+	// HooksReversed: WithTerminateHook is called before WithConnectHook
+	HooksReversed bool `json:"terminate_hook_installed_first,omitempty"`
 }
 
 type ctxConnID struct{}
@@ -134,36 +136,42 @@ func c16Bubble(c c16Case) c08Result {
 		return &payloads.ActivateResponsePayload{UniqueIdentifier: req.UniqueIdentifier}, nil
 	}))
 	ln := memnet.NewListener()
-	srv := kmipserver.NewServer(ln, exec).
-		WithConnectHook(func(ctx context.Context) (context.Context, error) {
-			lg.mu.Lock()
-			if lg.shutdownReturned {
-				lg.lateConnects++
-			}
-			id := order
-			order++
-			bad := failHook[id]
-			if bad {
-				lg.failed[id] = true
-			} else {
-				lg.connects[id]++
-			}
-			lg.mu.Unlock()
-			if bad {
-				return ctx, errors.New("connect hook refuses")
-			}
-			return context.WithValue(ctx, ctxConnID{}, id), nil
-		}).
-		WithTerminateHook(func(ctx context.Context) {
-			id, ok := ctx.Value(ctxConnID{}).(int)
-			lg.mu.Lock()
-			if !ok {
-				id = -1
-			}
-			lg.terminates[id]++
-			lg.termTime[id] = time.Now()
-			lg.mu.Unlock()
-		})
+	connectHook := kmipserver.ConnectHook(func(ctx context.Context) (context.Context, error) {
+		lg.mu.Lock()
+		if lg.shutdownReturned {
+			lg.lateConnects++
+		}
+		id := order
+		order++
+		bad := failHook[id]
+		if bad {
+			lg.failed[id] = true
+		} else {
+			lg.connects[id]++
+		}
+		lg.mu.Unlock()
+		if bad {
+			return ctx, errors.New("connect hook refuses")
+		}
+		return context.WithValue(ctx, ctxConnID{}, id), nil
+	})
+	terminateHook := kmipserver.TerminateHook(func(ctx context.Context) {
+		id, ok := ctx.Value(ctxConnID{}).(int)
+		lg.mu.Lock()
+		if !ok {
+			id = -1
+		}
+		lg.terminates[id]++
+		lg.termTime[id] = time.Now()
+		lg.mu.Unlock()
+	})
+	srv := kmipserver.NewServer(ln, exec)
+	if c.HooksReversed {
+		// the two setters are independent: the order in which they are called must not matter
+		srv = srv.WithTerminateHook(terminateHook).WithConnectHook(connectHook)
+	} else {
+		srv = srv.WithConnectHook(connectHook).WithTerminateHook(terminateHook)
+	}
 	serveRes := make(chan error, 1)
 	go func() { serveRes <- srv.Serve() }()
 
@@ -508,9 +516,10 @@ func TestC16Shutdown(t *testing.T) {
 		if rapid.IntRange(0, 3).Draw(rt, "second-shutdown") == 0 {
 			c.SecondShutdownMs = rapid.SampledFrom([]int{1, 500, 2000, 3500}).Draw(rt, "second-shutdown-ms")
 		}
+		c.HooksReversed = rapid.Bool().Draw(rt, "hooks-reversed")
 		key, _ := json.Marshal(c)
 		var labels []string
-		labels = append(labels, fmt.Sprintf("second-shutdown=%v", c.SecondShutdownMs > 0))
+		labels = append(labels, fmt.Sprintf("second-shutdown=%v", c.SecondShutdownMs > 0), fmt.Sprintf("hooks-reversed=%v", c.HooksReversed))
 		for _, cc := range c.Conns {
 			labels = append(labels, "phase="+cc.Phase)
 		}
